@@ -373,6 +373,20 @@ Definition run_suite (rk : rkind) (vexpr : vfun) (m : xmode) (cap : nat) (n : no
   | Dead d p => Crashed d p
   end.
 
+(* the same reporter used for a second run_test_suite() (what cgreen-runner does for every
+   further library): the totals go on from where the first run left them *)
+Definition run_suite_from (rk : rkind) (vexpr : vfun) (m : xmode) (cap : nat) (n : node) (p : pstate) : result :=
+  match run_node rk m cap n p with
+  | Done p' => Finished (verdict_of vexpr p') p'
+  | Dead d p' => Crashed d p'
+  end.
+Definition run_two (rk : rkind) (vexpr : vfun) (m : xmode) (cap : nat) (n1 n2 : node) : result * result :=
+  let r1 := run_suite_from rk vexpr m cap n1 p_init in
+  match r1 with
+  | Finished _ p1 => (r1, run_suite_from rk vexpr m cap n2 p1)
+  | Crashed _ _ => (r1, r1)
+  end.
+
 (* exit status of the process that owns the verdict: 0 = success *)
 Definition exit_ok (r : result) : bool :=
   match r with
